@@ -304,6 +304,11 @@ func checkC15(c *Ctx) {
 		c.Check(okShape, "C15.R3.filter", "diff.SpecDifferences.Contains › exists e. e.Matches(x)", c.posOf(pk, fd.Pos()), "shape confirmed", "Contains is not `for e in sd { if e.Matches(x) { return true } }; return false`")
 	}
 	checkExecuteOrdering(c, cmds, pk)
+	checkEntriesVerbatim(c, "C15.R3.entries-verbatim", cmds, pk)
+	// an entry copied from one run's report cancels the same difference of the next run only if
+	// the text of the difference is a function of the two specs: no map iteration order in it
+	c.Rule("C15.R3.stable-entries", "order taint over the diff package: the location and info of a difference never depend on map iteration order (ranges are order-insensitive, sorted before they escape, or reviewed)", 30)
+	emitOrderTaint(c, c.orderAnalysis(), "C15.R3.stable-entries", "C15.R3.stable-entries", func(p *packages.Package) bool { return p == pk || p.PkgPath == pk.PkgPath })
 	checkFormatChannel(c, cmds)
 
 	// ---- R4 sections
@@ -1051,4 +1056,62 @@ func checkMatchFields(c *Ctx, rule string, pk *packages.Package) {
 		}
 	}
 
+}
+
+// checkEntriesVerbatim: ignore entries are matched field by field against the computed
+// differences (C15.R2). Feeding a report back as ignore file cancels every difference only if
+// neither side is touched between decoding / computing and matching: the command never stores
+// to a field of a value whose type is declared in the diff package.
+func checkEntriesVerbatim(c *Ctx, rule string, cmds, diffpk *packages.Package) {
+	c.Rule(rule, "the diff command never rewrites a field of a computed difference or of a decoded ignore entry (values of types declared in the diff package): both sides reach Matches as computed / as decoded", 3)
+	info := cmds.TypesInfo
+	declaredInDiff := func(t types.Type) bool {
+		for {
+			switch x := t.(type) {
+			case *types.Pointer:
+				t = x.Elem()
+				continue
+			case *types.Named:
+				return x.Obj().Pkg() == diffpk.Types
+			}
+			return false
+		}
+	}
+	for _, fd := range load.AllFuncs(cmds) {
+		if fd.Body == nil || load.RecvName(fd) != "DiffCommand" {
+			continue
+		}
+		var bad []string
+		var badPos token.Pos
+		store := func(lhs ast.Expr) {
+			se, ok := ast.Unparen(lhs).(*ast.SelectorExpr)
+			for ok {
+				if tv, found := info.Types[se.X]; found && declaredInDiff(tv.Type) {
+					bad = append(bad, types.ExprString(lhs))
+					if badPos == token.NoPos {
+						badPos = lhs.Pos()
+					}
+					return
+				}
+				se, ok = ast.Unparen(se.X).(*ast.SelectorExpr)
+			}
+		}
+		ast.Inspect(fd.Body, func(n ast.Node) bool {
+			switch x := n.(type) {
+			case *ast.AssignStmt:
+				for _, l := range x.Lhs {
+					store(l)
+				}
+			case *ast.IncDecStmt:
+				store(x.X)
+			}
+			return true
+		})
+		pos := fd.Pos()
+		if badPos != token.NoPos {
+			pos = badPos
+		}
+		c.Check(len(bad) == 0, rule, "commands."+load.FuncName(fd)+" › no store to a field of a difference", c.posOf(cmds, pos), "no such store",
+			fmt.Sprintf("%s stores to %v: one side of the comparison between reported differences and ignore entries is rewritten after it was computed / decoded, so an entry copied from the report no longer matches the difference it was copied from", load.FuncName(fd), bad))
+	}
 }
